@@ -115,6 +115,42 @@ def close(a, b, tol=1e-9):
     return abs(a - b) <= tol * max(1.0, abs(a), abs(b))
 
 
+def arc_point(x1, y1, rx, ry, rot_deg, large, sweep, x2, y2, t):
+    """Point at parameter t of the arc given in SVG end-point form, by the conversion of the SVG 1.1 implementation notes
+    (F.6.5/F.6.6: radii made positive and scaled up when too small); written out here so that the comparison does not go
+    through the library's own Arc."""
+    import math
+    rx, ry = abs(float(rx)), abs(float(ry))
+    if (x1, y1) == (x2, y2):
+        return (float(x1), float(y1))
+    if rx == 0 or ry == 0:
+        return (x1 + (x2 - x1) * t, y1 + (y2 - y1) * t)
+    phi = math.radians(rot_deg)
+    c, s = math.cos(phi), math.sin(phi)
+    dx, dy = (x1 - x2) / 2.0, (y1 - y2) / 2.0
+    xp, yp = c * dx + s * dy, -s * dx + c * dy
+    lam = xp * xp / (rx * rx) + yp * yp / (ry * ry)
+    if lam > 1:
+        rx, ry = rx * math.sqrt(lam), ry * math.sqrt(lam)
+    num = rx * rx * ry * ry - rx * rx * yp * yp - ry * ry * xp * xp
+    den = rx * rx * yp * yp + ry * ry * xp * xp
+    k = math.sqrt(max(0.0, num / den))
+    if bool(large) == bool(sweep):
+        k = -k
+    cxp, cyp = k * rx * yp / ry, -k * ry * xp / rx
+    cx, cy = c * cxp - s * cyp + (x1 + x2) / 2.0, s * cxp + c * cyp + (y1 + y2) / 2.0
+    th1 = math.atan2((yp - cyp) / ry, (xp - cxp) / rx)
+    th2 = math.atan2((-yp - cyp) / ry, (-xp - cxp) / rx)
+    d = th2 - th1
+    if sweep and d < 0:
+        d += 2 * math.pi
+    elif not sweep and d > 0:
+        d -= 2 * math.pi
+    th = th1 + d * t
+    ex, ey = rx * math.cos(th), ry * math.sin(th)
+    return (cx + c * ex - s * ey, cy + s * ex + c * ey)
+
+
 def pt_eq(p, q, tol=0.0):
     if p is None or q is None:
         return p is None and (q is None or q == [])
